@@ -406,6 +406,105 @@ class Fn:
             return self.origin(rv["a"], depth - 1)
         return ("rv", d[1], d[2], rv)
 
+    # --- access paths (normal form for def-use rules) --------------------------------------
+    def apath_place(self, pl, depth=16):
+        """(root, projs): root is ('arg', n) | ('call', callee_path, (arg apaths...), bb) | ('local', l) |
+        ('const', text) | ('rv', kind, ...); projs is a tuple of field / variant names (derefs dropped)."""
+        projs = []
+        for p in pl["p"]:
+            if p == "*":
+                continue
+            if isinstance(p, dict):
+                if "f" in p:
+                    projs.append(p["f"])
+                elif "variant" in p:
+                    projs.append("as " + p["variant"])
+                elif "index" in p:
+                    projs.append("[]")
+                else:
+                    projs.append("[c]")
+        l = pl["l"]
+        ds = self.defs().get(l, [])
+        if 1 <= l <= self.raw["arg_count"] and not ds:
+            return (("arg", l), tuple(projs))
+        if len(ds) != 1 or depth <= 0:
+            return (("local", l), tuple(projs))
+        d = ds[0]
+        if d[0] == "call":
+            t = d[2]
+            name = t["callee"]["path"] if "callee" in t else "<indirect>"
+            args = tuple(self.apath(a, depth - 1) for a in t["args"])
+            return (("call", name, args, d[1]), tuple(projs))
+        rv = d[3]
+        k = rv["k"]
+        if k == "use" or (k == "cast" and (rv["ck"].startswith("PointerCoercion") or rv["ck"] in ("PtrToPtr", "Transmute"))):
+            base = self.apath(rv["a"], depth - 1)
+            return (base[0], base[1] + tuple(projs))
+        if k in ("ref", "rawptr"):
+            base = self.apath_place(rv["place"], depth - 1)
+            return (base[0], base[1] + tuple(projs))
+        if k == "agg":
+            name = rv["agg"] if rv["agg"] != "adt" else rv["adt"] + "::" + rv["variant"]
+            if rv["agg"] == "closure":
+                name = "closure:" + rv["closure"]["path"]
+            return (("agg", name, tuple(self.apath(o, depth - 1) for o in rv["ops"]), d[1]), tuple(projs))
+        if k == "binop":
+            return (("binop", rv["op"], self.apath(rv["a"], depth - 1), self.apath(rv["b"], depth - 1)), tuple(projs))
+        if k == "unop":
+            return (("unop", rv["op"], self.apath(rv["a"], depth - 1)), tuple(projs))
+        if k == "cast":
+            return (("cast", rv["ck"], self.apath(rv["a"], depth - 1), rv["to"]), tuple(projs))
+        if k == "discr":
+            return (("discr", self.apath_place(rv["place"], depth - 1)), tuple(projs))
+        return (("rv", k, d[1], d[2]), tuple(projs))
+
+    def apath(self, op, depth=16):
+        c = const_of(op)
+        if c is not None:
+            if "int" in c:
+                return (("const", c["int"]), ())
+            if "fndef" in c:
+                return (("fn", c["fndef"]["path"]), ())
+            return (("const", c.get("dbg", "?")), ())
+        pl = place_of(op)
+        if pl is None:
+            return (("unknown",), ())
+        return self.apath_place(pl, depth)
+
+    def guards_of(self, bb):
+        """Necessary branch edges: [(switch_bb, label, info)] such that `bb` is unreachable from the
+        entry once that single edge is removed (cut-set decision on single edges)."""
+        out = []
+        for s in range(len(self.blocks)):
+            if self.blocks[s]["cleanup"] or self.blocks[s]["term"]["k"] != "switch" or s == bb:
+                continue
+            if not self.dominates(s, bb):
+                continue
+            succ = self.succs(s)
+            for lab, tgt in succ:
+                # B must be unreachable without this edge, but reachable with it (i.e. other edges do not lead there)
+                if bb not in self.reachable(0, cut_edges={(s, lab, tgt)}):
+                    out.append((s, lab, self.switch_info(s)))
+        return out
+
+    def guard_desc(self, g):
+        """Human/rule readable description of a guard: ('variant', apath(place), enum, VariantName) or
+        ('bool', apath_or_rv, True/False) or ('int', apath, label)."""
+        s, lab, info = g
+        if info["kind"] == "discr":
+            name = info["variants"].get(lab, None) if lab != "otherwise" else None
+            if name is None:
+                named = {info["variants"].get(v) for v, _ in info["targets"]}
+                rest = [n for n in info["variants"].values() if n not in named]
+                name = rest[0] if len(rest) == 1 else "otherwise(" + "|".join(rest) + ")"
+            return ("variant", self.apath_place(info["place"]), info["enum"], name)
+        if info["kind"] == "bool":
+            t = self.blocks[s]["term"]
+            val = (lab != 0)
+            return ("bool", self.apath(t["discr"]), val)
+        t = self.blocks[s]["term"]
+        return ("int", self.apath(t["discr"]), lab)
+
     def switch_info(self, bb):
         """For a switch terminator: what is tested. Returns dict with
         kind: 'discr' (enum discriminant; 'place', 'variants' {value:name}),
@@ -563,3 +662,56 @@ def load(repo=REPO, features=None, tag="ws"):
         d = extract(repo, features=features, tag=tag)
         _loaded[key] = Facts(d)
     return _loaded[key]
+
+
+def ap_str(ap):
+    """Render an access path."""
+    root, projs = ap
+    k = root[0]
+    if k == "arg":
+        s = "arg%d" % root[1]
+    elif k == "call":
+        s = "%s(%s)" % (root[1], ", ".join(ap_str(a) for a in root[2]))
+    elif k == "local":
+        s = "_%d" % root[1]
+    elif k == "const":
+        s = str(root[1])
+    elif k == "fn":
+        s = "fn " + root[1]
+    elif k == "agg":
+        s = "%s{%s}" % (root[1], ", ".join(ap_str(a) for a in root[2]))
+    elif k == "binop":
+        s = "(%s %s %s)" % (ap_str(root[2]), root[1], ap_str(root[3]))
+    elif k == "unop":
+        s = "%s(%s)" % (root[1], ap_str(root[2]))
+    elif k == "cast":
+        s = "(%s as %s)" % (ap_str(root[2]), root[3])
+    elif k == "discr":
+        s = "discr(%s)" % ap_str(root[1])
+    else:
+        s = str(root)
+    for p in projs:
+        s += (" " + p) if p.startswith("as ") else ("." + p)
+    return s
+
+
+def ap_calls(ap, out=None):
+    """All callee paths mentioned in an access path (outermost first)."""
+    if out is None:
+        out = []
+    root = ap[0]
+    if root[0] == "call":
+        out.append(root[1])
+        for a in root[2]:
+            ap_calls(a, out)
+    elif root[0] == "agg":
+        for a in root[2]:
+            ap_calls(a, out)
+    elif root[0] in ("binop",):
+        ap_calls(root[2], out)
+        ap_calls(root[3], out)
+    elif root[0] in ("unop", "cast"):
+        ap_calls(root[2], out)
+    elif root[0] == "discr":
+        ap_calls(root[1], out)
+    return out
